@@ -737,11 +737,11 @@ theorem run_callees {cs : List (Callee × Bool)} {g : G} (hrun : GRun prog (G.in
 theorem childBeh_table :
     (∀ v, childBeh (.ret v) = .sendOk) ∧ (∀ e, childBeh (.raiseExc e) = .sendErr) ∧ (∀ e, childBeh (.raiseBase e) = .die) ∧
     (∀ d, childBeh (.hardDeath d) = .die) ∧ childBeh .unpicklable = .die ∧ (∀ v, childBeh (.afterSendDeath v) = .sendOk) ∧
-    (∀ v, childBeh (.midSendDeath v) = .dieMidSend) := by
-  refine ⟨?_, ?_, ?_, ?_, ?_, ?_, ?_⟩ <;> intros <;> simp only [childBeh] <;> decide
+    (∀ v, childBeh (.midSendDeath v) = .dieMidSend) ∧ (∀ v, childBeh (.spawns v) = .sendOk) := by
+  refine ⟨?_, ?_, ?_, ?_, ?_, ?_, ?_, ?_⟩ <;> intros <;> simp only [childBeh, childBehD] <;> decide
 
 theorem outOk_allowed (c : Callee) (o : Outcome) (h : outOk (childBeh c) (some o) = true) : observe c o ∈ Spec.allowed c := by
-  obtain ⟨h1, h2, h3, h4, h5, h6, h7⟩ := childBeh_table
+  obtain ⟨h1, h2, h3, h4, h5, h6, h7, h8⟩ := childBeh_table
   cases c with
   | ret v => rw [h1] at h; simp [outOk] at h; subst h; simp [observe, Spec.allowed]
   | raiseExc e => rw [h2] at h; simp [outOk] at h; subst h; simp [observe, Spec.allowed]
@@ -752,6 +752,7 @@ theorem outOk_allowed (c : Callee) (o : Outcome) (h : outOk (childBeh c) (some o
   | midSendDeath v =>
     rw [h7] at h; simp [outOk] at h
     rcases h with h | h <;> subst h <;> simp [observe, Spec.allowed]
+  | spawns v => rw [h8] at h; simp [outOk] at h; subst h; simp [observe, Spec.allowed]
 
 /-- **faithful result, each invocation its own**: in every reachable state of any number of concurrent invocations, an
     invocation that has finished hands its caller an observation the specification allows for *its own* callee:
@@ -923,9 +924,30 @@ example : GRun prog (G.init [(.ret 0, false), (.ret 1, false), (.unpicklable, fa
 example : midG.tbl.map (fun e => (e.fd, e.owner)) = [(2, 2), (1, 1), (0, 0)] ∧ midG.invs.all (fun l => l.st.parked) = true := by
   decide +kernel
 
-/-- what the translator read off the rest of the module -/
+/-- what the translator read off the rest of the module (the child is an ordinary, non-daemonic process: the callee may start
+    processes of its own) -/
 theorem source_shape :
-    processArgsForwarded = true ∧ innerRunsCoroutines = true ∧ wrapperIsAsync = true ∧ wrapperWraps = true ∧
+    processArgsForwarded = true ∧ processDaemon = false ∧ innerRunsCoroutines = true ∧ wrapperIsAsync = true ∧ wrapperWraps = true ∧
     wrapperForwards = true := by decide
+
+/-- every `join` of the generated program waits for the child without a time limit -/
+theorem join_waits : prog.all (fun i => i.op != .joinTimeout) = true := by decide
+
+/-- **why `join` must not give up**: the current program with every `join` given a timeout has a reachable final state of the
+    one-invocation machine — the caller already holds its result — in which the child has neither exited nor been reaped
+    (negation witness for "no un-reaped child process behind") -/
+def joinTimeoutProg : List Instr := prog.map (fun x => if x.op == .join then { x with op := .joinTimeout } else x)
+
+theorem join_timeout_leaves_child :
+    (reach joinTimeoutProg .sendOk false).any (fun s => s.final && s.out == some .retOk && !s.reaped && s.cpc == .sent && !s.released) = true := by
+  decide +kernel
+
+/-- **why the child must not be daemonic**: with `daemon=True` a callee that starts a process of its own does not get its value
+    through — the caller is handed an error although the function, run directly, returns -/
+theorem daemon_breaks_spawning_callee (v : Nat) :
+    childBehD true (.spawns v) = .sendErr ∧ observe (.spawns v) .raisedCallee ∉ Spec.allowed (.spawns v) := by
+  constructor
+  · simp only [childBehD]; decide
+  · simp [observe, Spec.allowed]
 
 end PedVerif.Subproc
